@@ -93,6 +93,12 @@ package gnmi
 //@   modifies targetLookups[targetID], targetLookupCount
 //@   ensures targetLookups[targetID] && targetLookupCount == old(targetLookupCount) + 1
 //@   ensures err == nil ==> c != nil
+//@   ensures errWF(err)
+// a read of device state: nothing of the controller's bookkeeping moves
+//@ iface Client.Get(ctx, r) (resp, err)
+//@   modifies nothing
+//@   ensures err == nil ==> resp != nil
+//@   ensures errWF(err)
 //@ iface Client.Poll() (err)
 //@   modifies pollCalls
 //@   ensures pollCalls == old(pollCalls) + 1
